@@ -368,9 +368,26 @@ func ruleHandlerPanic(p *Prog, r *Out) {
 		return true
 	})
 	r.check(recovers, "recovers", p.pos(deferLit.Pos()), "recover() in the deferred function", "the handler goroutine's deferred function does not recover: a handler panic kills the process")
-	// top-level select with handlerDone send and handlerStop receive
+	// top-level select with handlerDone send and handlerStop receive, not
+	// preceded by anything that can leave the deferred function
 	reportTop := false
+	leftEarly := false
 	for _, s := range deferLit.Body.List {
+		if _, ok := s.(*ast.SelectStmt); !ok && !reportTop {
+			ast.Inspect(s, func(n ast.Node) bool {
+				switch x := n.(type) {
+				case *ast.FuncLit:
+					return false
+				case *ast.ReturnStmt:
+					leftEarly = true
+				case *ast.CallExpr:
+					if p.calleeOf(x) == "builtin.panic" || p.calleeOf(x) == "runtime.Goexit" {
+						leftEarly = true
+					}
+				}
+				return true
+			})
+		}
 		if sel, ok := s.(*ast.SelectStmt); ok {
 			send, stop := false, false
 			for _, c := range sel.Body.List {
@@ -389,7 +406,7 @@ func ruleHandlerPanic(p *Prog, r *Out) {
 			}
 		}
 	}
-	r.check(reportTop, "reports back on every path", p.pos(deferLit.Pos()), "unconditional select{handlerDone<-strm; <-handlerStop}",
+	r.check(reportTop && !leftEarly, "reports back on every path", p.pos(deferLit.Pos()), "unconditional select{handlerDone<-strm; <-handlerStop}",
 		"the deferred function does not unconditionally report the stream on handlerDone (with handlerStop as alternative): after a handler panic the stream keeps its slot and its RequestCtx for ever")
 	// the handler is called in the goroutine body
 	calls := false
